@@ -18,6 +18,6 @@ def harnesses(ctx, tier):
                     desc="yr_arena_allocate_memory/zeroed/write_data growth step with always-moving realloc, registered pointers inside and outside the moved buffer",
                     bounds="capacity 1..16, region 16..24 B, growth 1..16 B, 2 buffers, 2 optional relocs",
                     functions=["_yr_arena_allocate_memory", "yr_arena_allocate_memory", "yr_arena_allocate_zeroed_memory", "yr_arena_write_data", "yr_arena_make_ptr_relocatable", "yr_arena_get_ptr"]),
-            Harness(name="H2_ac_add_string_relocating", src="c19/ac_add.c", unwind=6, timeout=600, unwind_funcs={"_yr_arena_allocate_memory": 8, "_yr_arena_make_ptr_relocatable": 6, "yr_arena_ptr_to_ref": 14, "memcmp": 10},
+            Harness(name="H2_ac_add_string_relocating", src="c19/ac_add.c", unwind=6, timeout=600, unwind_funcs={"_yr_arena_allocate_memory": 16, "_yr_arena_make_ptr_relocatable": 6, "yr_arena_ptr_to_ref": 14, "memcmp": 10},
                     desc="yr_ac_add_string for two strings sharing an atom, match pool capacity 1, always-moving realloc: match list resolved after growth",
                     bounds="atom 1..2 symbolic bytes, 2 strings", functions=["yr_ac_add_string", "_yr_ac_state_create", "yr_arena_allocate_struct"])]
